@@ -225,11 +225,22 @@ func (r *runner) apply(f []string) string {
 			time.Sleep(30 * time.Millisecond)
 			return "ok"
 		}
+		// wait for the announced frame counts - but not once nothing moves any more (no send of the
+		// client pending, both counters unchanged for 250 ms): the counts of a shrunk case are never reached
+		lastC, lastS, lastAt := -1, -1, time.Now()
+		idle := false
 		ok := waitFor(500*time.Millisecond, func() bool {
 			c, _, _ := s.cstat.get()
 			sv, _, _ := s.sstat.get()
+			if c != lastC || sv != lastS || s.cq.pending() > 0 {
+				lastC, lastS, lastAt = c, sv, time.Now()
+			} else if time.Since(lastAt) > 250*time.Millisecond {
+				idle = true
+				return true
+			}
 			return (wc < 0 || c >= wc) && (ws < 0 || sv >= ws)
 		})
+		ok = ok && !idle
 		if !ok {
 			core.Count("settle_timeout")
 			if os.Getenv("C10_DEBUG") != "" {
@@ -551,7 +562,11 @@ wait:
 	if !v.returned {
 		gs := s.stable()
 		v.obs = s.obs()
-		if s.termed {
+		if s.termed && s.proxyEnd.isStalled() {
+			// the client still neither reads nor fails: "a write completes or fails" does not hold for
+			// this case (yet), so nothing is demanded; the model's prediction is still compared
+			core.Count("finish_while_stalled")
+		} else if s.termed {
 			site := "none"
 			for _, g := range gs {
 				if g.kind == "reader" {
